@@ -300,3 +300,74 @@ pub fn validity(prop: &str, tier: &str, acc: &mut Acc, bounds: &mut Vec<String>)
     acc.merge(a);
     bounds.push(format!("scale validity: the {} scale collections (66000-byte pattern, 74284 patterns, 600 nested patterns, one character 70000 times in one pattern / in 66000 patterns) accepted by builder x 3 kinds and the associated constructors of both variants, with and without values", cs.len()));
 }
+
+/// The patterns of a scale case (for replays).
+pub fn case_patterns(name: &str) -> Option<Vec<Vec<u8>>> {
+    cases(true).into_iter().find(|c| c.name == name).map(|c| c.pats)
+}
+
+/// C09 at scale: the round trip of every scale collection (output positions above 65 535, tables of
+/// several hundred blocks), both variants, all kinds.
+pub fn roundtrip(prop: &str, tier: &str, acc: &mut Acc, bounds: &mut Vec<String>) {
+    let cs = cases(tier_is_thorough(tier));
+    let mut tasks: Vec<(usize, Cfg)> = Vec::new();
+    for (i, c) in cs.iter().enumerate() {
+        for variant in Variant::ALL {
+            if variant == Variant::Char && !c.utf8 {
+                continue;
+            }
+            for kind in Kind::ALL {
+                tasks.push((i, Cfg::new(variant, kind, None, Entry::Builder)));
+            }
+        }
+    }
+    let a = par_for(tasks.len(), |ti, acc| {
+        let (ci, cfg) = tasks[ti];
+        let c = &cs[ci];
+        let origin = json!({"scale_case": c.name, "variant": cfg.variant.name(), "kind": cfg.kind.name(), "nfb": null, "entry": cfg.entry.name()});
+        set_case(prop, "roundtrip", origin.clone());
+        util::tick_progress();
+        let Some(b) = e2::build_or_violate(prop, "roundtrip", cfg, &c.pats, None, acc) else {
+            return;
+        };
+        let bytes = b.auto.serialize();
+        acc.evals += 1;
+        acc.nontrivial += 1;
+        let mut src = bytes.clone();
+        src.extend_from_slice(&[0xff, 0x00, 0xff]);
+        let rt = std::panic::catch_unwind(std::panic::AssertUnwindSafe(|| crate::auto::Auto::deserialize(cfg.variant, &src)));
+        acc.traces += 1;
+        let (r, off, rest) = match rt {
+            Ok(x) => x,
+            Err(_) => {
+                acc.violate(prop, "roundtrip", format!("deserialize_unchecked panicked on the bytes produced by serialize (scale case '{}'): {}", c.name, util::take_last_panic().unwrap_or_default()), origin.clone());
+                return;
+            }
+        };
+        if off != bytes.len() || rest != 3 {
+            acc.violate(prop, "roundtrip", format!("scale case '{}' [{} {}]: deserialisation consumed {off} of {} bytes and left {rest} (3 trailing bytes were appended)", c.name, cfg.variant.name(), cfg.kind.name(), bytes.len()), origin.clone());
+            return;
+        }
+        if !r.same(&b.auto) {
+            acc.violate(prop, "roundtrip", format!("scale case '{}' [{} {}]: restored automaton != original", c.name, cfg.variant.name(), cfg.kind.name()), origin.clone());
+            return;
+        }
+        if r.serialize() != bytes {
+            acc.violate(prop, "roundtrip", format!("scale case '{}' [{} {}]: the restored automaton serialises to different bytes", c.name, cfg.variant.name(), cfg.kind.name()), origin.clone());
+            return;
+        }
+        // the restored automaton searches like the original on the case's haystacks
+        for hay in &c.hays {
+            for &m in Method::for_kind(cfg.kind) {
+                util::tick_progress();
+                acc.traces += 1;
+                if b.auto.run(m, hay) != r.run(m, hay) {
+                    acc.violate(prop, "roundtrip", format!("{} differs between the original and the restored automaton on the scale case '{}' [{} {}] (haystack of {} bytes)", m.name(), c.name, cfg.variant.name(), cfg.kind.name(), hay.len()), origin.clone());
+                    break;
+                }
+            }
+        }
+    });
+    acc.merge(a);
+    bounds.push(format!("scale round trips: the {} scale collections x both variants x 3 kinds: equality, byte identity, consumed length with 3 trailing bytes, original vs restored on the case's haystacks", cs.len()));
+}
